@@ -1095,9 +1095,40 @@ class MutableFileVersion:
         # Otherwise, we can replace just the parts that are changing.
         log.msg("updating in place")
         d = self._do_update_update(data, offset)
-        d.addCallback(self._decode_and_decrypt_segments, data, offset)
-        d.addCallback(self._build_uploadable_and_finish, data, offset)
+        def _in_place_or_reencode(ignored):
+            if not self._can_update_in_place():
+                # The publisher patches the located shares where they
+                # are and needs the old block hashes of every share
+                # number. With stale shares of another version around,
+                # or a share number that was not found, it cannot do
+                # that: re-encode, which replaces all of them.
+                log.msg("doing re-encode instead of in-place update: "
+                        "not every share is of this version")
+                return self._do_modify_update(data, offset)
+            d2 = self._decode_and_decrypt_segments(None, data, offset)
+            d2.addCallback(self._build_uploadable_and_finish, data, offset)
+            return d2
+        d.addCallback(_in_place_or_reencode)
         return d
+
+
+    def _can_update_in_place(self):
+        """
+        After the servermap update of _do_update_update: do all the
+        shares that were located belong to this version, and did we get
+        the update data (block hashes, boundary segments) of this
+        version for every share number?
+        """
+        sm = self._servermap
+        for (verinfo, timestamp) in sm.get_known_shares().values():
+            if verinfo != self._version:
+                return False
+        total_shares = self._version[6]
+        for shnum in range(total_shares):
+            entries = sm.update_data.get(shnum, [])
+            if not [e for e in entries if e[0] == self._version]:
+                return False
+        return True
 
 
     def _do_modify_update(self, data, offset):
